@@ -28,25 +28,66 @@ class NormRow:
         return f"{sorted(self.kinds)} -> {self.outcome} {self.action}"
 
 
+def _classify_value(v: Any, item: SObj) -> str:
+    if v is item:
+        return "keep"
+    if isinstance(v, SStr) and len(v.frags) == 1 and v.frags[0].kind == "OF" and v.frags[0].a[0] == item.uid \
+            and v.frags[0].b in ("NUM", "PLAIN") and not v.frags[0].c:
+        return "convert"
+    if isinstance(v, str) and v in ("True", "False") and item.kinds <= {"TRUE", "FALSE"}:
+        return "convert"
+    return "other"
+
+
 def tagchilds_table(prog: Program) -> Dict[str, Any]:
-    """kind of a flattened item -> what _tagchilds_to_tagnodes does with it."""
+    """kind of a flattened item -> what _tagchilds_to_tagnodes does with it (keep | convert | raise | drop | other).
+
+    Shape-agnostic: the per-item decision may be written as an in-place patch of the flattened list, as a loop appending to
+    a fresh list, or as a comprehension over flatten(x) (possibly through a helper)."""
     I = Interp(prog)
-    cfg = Config()
-    cfg.stop_at_loop = ("_tagchilds_to_tagnodes", 0)
-    holder: Dict[str, Any] = {}
+    fn = prog.function(CORE, "_tagchilds_to_tagnodes")
+    p = fn.args.args[0].arg
 
     def mk(run: Any) -> Tuple[Dict[str, Any], Any]:
-        fn = prog.function(CORE, "_tagchilds_to_tagnodes")
-        p = fn.args.args[0].arg
-        return ({p: SObj("x", {"LIST", "TUPLE", "TAGLIST", "STR", "RANGE"})}, None)
+        x = SObj("x", {"LIST", "TUPLE", "TAGLIST", "STR", "RANGE"})
+        run.__dict__["x"] = x
+        return ({p: x}, None)
 
-    leaves = I.run_function(CORE, "_tagchilds_to_tagnodes", mk, cfg)
+    cfg0 = Config()
+    cfg0.opaque = {"flatten"}
+    cfg0.loop_effects = False
+    summary = I.run_function(CORE, "_tagchilds_to_tagnodes", mk, cfg0)
+    pre = [l for l in summary if l.run.__dict__["x"].kinds <= {"STR", "JSXEXPR"}]
     rows: List[NormRow] = []
-    pre: List[Any] = []
+    maps = [l for l in summary if l not in pre and ((l.kind == "return" and isinstance(l.value, SList) and l.value.mode == "map")
+                                                    or (l.kind == "raise" and not l.run.loops))]
+    if maps and any(l.kind == "return" for l in maps):
+        # comprehension shape: one leaf per decision about the generic element
+        for l in maps:
+            var = l.value.var if l.kind == "return" else l.run.__dict__.get("last_generic_var")
+            if not isinstance(var, SObj):
+                raise Unmodelled("_tagchilds_to_tagnodes: comprehension element not identified")
+            if l.kind == "raise":
+                rows.append(NormRow(frozenset(var.kinds), "raise", l.value.cls_name if isinstance(l.value, SNew) else "?", None, []))
+            else:
+                if l.value.cond:
+                    raise Unmodelled("_tagchilds_to_tagnodes: filtered comprehension")
+                c = _classify_value(l.value.elt, var)
+                rows.append(NormRow(frozenset(var.kinds), c, "map", l.value.elt, []))
+                rows[-1].__dict__["item"] = var
+                rows[-1].__dict__["target"] = l.value
+            rows[-1].__dict__["iter_value"] = l.value.base if l.kind == "return" else None
+            rows[-1].__dict__["leaf"] = l
+        return {"rows": rows, "pre": pre, "shape": "comprehension"}
+    # loop shape
+    rets = [l for l in summary if l not in pre and l.kind == "return"]
+    cfg = Config()
+    cfg.opaque = {"flatten"}
+    cfg.stop_at_loop = ("_tagchilds_to_tagnodes", 0)
+    leaves = I.run_function(CORE, "_tagchilds_to_tagnodes", mk, cfg)
     for l in leaves:
         rec = getattr(l.run, "stop_loop_record", None)
         if rec is None:
-            pre.append(l)
             continue
         el = rec.__dict__.get("element")
         item = None
@@ -56,67 +97,82 @@ def tagchilds_table(prog: Program) -> Dict[str, Any]:
             item = el
         if not isinstance(item, SObj):
             raise Unmodelled("_tagchilds_to_tagnodes: loop does not iterate (index, item) or item")
+        it = rec.iter_value
+        d = getattr(it, "iter_descr", None)
+        base = d[1] if d is not None and d[0] == "enumerate" else it
         start = rec.__dict__.get("body_effect_start", 0)
         stores = [e for e in l.effects[start:] if e.kind in ("store_item", "mutcall", "store_slice")]
+        inplace = [e for e in stores if e.kind == "store_item" and e.target is base]
+        appends = [e for e in stores if e.kind == "mutcall" and e.key == "append" and e.target is not base]
+        def _is_flat(o: Any) -> bool:
+            return isinstance(o, SObj) and getattr((o.meta.get("call") or {}).get("func"), "qual", "") == "flatten"
+        returned_is_base = _is_flat(base) and any(_is_flat(r.value) for r in rets)
         if l.kind == "raise":
-            exc = l.value.cls_name if isinstance(l.value, SNew) else "?"
-            rows.append(NormRow(frozenset(item.kinds), "raise", exc, None, stores))
+            rows.append(NormRow(frozenset(item.kinds), "raise", l.value.cls_name if isinstance(l.value, SNew) else "?", None, stores))
         elif l.kind in ("fall", "continue"):
-            if not stores:
-                rows.append(NormRow(frozenset(item.kinds), "keep", "", None, stores))
+            if inplace:
+                c = _classify_value(inplace[-1].value, item)
+                rows.append(NormRow(frozenset(item.kinds), c if c != "keep" else "keep", "store_item", inplace[-1].value, stores))
+                rows[-1].__dict__["target"] = inplace[-1].target
+            elif appends:
+                c = _classify_value(appends[-1].value[0] if appends[-1].value else None, item)
+                rows.append(NormRow(frozenset(item.kinds), c, "append", appends[-1].value[0] if appends[-1].value else None, stores))
+                rows[-1].__dict__["target"] = appends[-1].target
+            elif not stores:
+                rows.append(NormRow(frozenset(item.kinds), "keep" if returned_is_base else "drop", "", None, stores))
             else:
-                e = stores[-1]
-                rows.append(NormRow(frozenset(item.kinds), "convert", e.kind, e.value, stores))
-                rows[-1].__dict__["item"] = item
-                rows[-1].__dict__["target"] = e.target
+                rows.append(NormRow(frozenset(item.kinds), "other", stores[-1].kind, stores[-1].value, stores))
+            rows[-1].__dict__["item"] = item
         else:
             rows.append(NormRow(frozenset(item.kinds), l.kind, "", l.value, stores))
         rows[-1].__dict__["iter_value"] = rec.iter_value
         rows[-1].__dict__["leaf"] = l
-    return {"rows": rows, "pre": pre}
+    return {"rows": rows, "pre": pre, "shape": "loop"}
 
 
 def flatten_table(prog: Program) -> List[NormRow]:
+    """kind of an element of the argument of flatten() -> recurse | drop | append (the loop of _flatten_recurse, entered
+    through flatten() itself so that extra helper parameters are bound as the code binds them)."""
     I = Interp(prog)
     cfg = Config()
     cfg.stop_at_loop = ("_flatten_recurse", 0)
+    fn = prog.function(UTIL, "flatten")
+    p = fn.args.args[0].arg
 
     def mk(run: Any) -> Tuple[Dict[str, Any], Any]:
-        fn = prog.function(UTIL, "_flatten_recurse")
-        ps = [a.arg for a in fn.args.args]
-        if len(ps) != 2:
-            raise Unmodelled("_flatten_recurse signature changed")
-        res = SList("carried", name="result")
-        run.__dict__["result_list"] = res
-        return ({ps[0]: SObj("x", {"LIST"}), ps[1]: res}, None)
+        x = SObj("x", {"LIST"})
+        run.__dict__["x"] = x
+        return ({p: x}, None)
 
     rows: List[NormRow] = []
-    for l in I.run_function(UTIL, "_flatten_recurse", mk, cfg):
+    for l in I.run_function(UTIL, "flatten", mk, cfg):
         rec = getattr(l.run, "stop_loop_record", None)
         if rec is None:
             continue
         el = rec.__dict__.get("element")
         if not isinstance(el, SObj):
             raise Unmodelled("_flatten_recurse: loop target is not a single item")
-        res = l.run.__dict__["result_list"]
-        l.effects[:] = l.effects[rec.__dict__.get("body_effect_start", 0):]
-        calls = [e for e in l.effects if e.kind == "call" and getattr(e.target, "qual", "") == "_flatten_recurse"]
-        appends = [e for e in l.effects if e.kind == "mutcall" and e.target is res]
-        other = [e for e in l.effects if e.kind in ("mutcall", "store_item", "store_slice") and e.target is not res]
+        eff = l.effects[rec.__dict__.get("body_effect_start", 0):]
+        calls = [e for e in eff if e.kind == "call" and getattr(e.target, "qual", "") == "_flatten_recurse"]
+        appends = [e for e in eff if e.kind == "mutcall" and isinstance(e.target, SList) and e.key in ("append", "extend", "insert", "__iadd__")]
+        other = [e for e in eff if e.kind in ("mutcall", "store_item", "store_slice") and e not in appends]
         if l.kind == "raise":
-            rows.append(NormRow(frozenset(el.kinds), "raise", "", None, l.effects))
+            rows.append(NormRow(frozenset(el.kinds), "raise", "", None, eff))
         elif calls and not appends:
-            ok = len(calls) == 1 and calls[0].value and calls[0].value[0] is el and calls[0].value[1] is res
-            rows.append(NormRow(frozenset(el.kinds), "recurse" if ok else "recurse?", "", None, l.effects))
+            ok = len(calls) == 1 and calls[0].value and calls[0].value[0] is el and any(isinstance(a, SList) for a in calls[0].value[1:])
+            rows.append(NormRow(frozenset(el.kinds), "recurse" if ok else "recurse?", "", None, eff))
         elif appends and not calls:
             ok = len(appends) == 1 and appends[0].key == "append" and appends[0].value and appends[0].value[0] is el
-            rows.append(NormRow(frozenset(el.kinds), "append" if ok else f"append?{short(appends[0].value)}", appends[0].key, None, l.effects))
+            rows.append(NormRow(frozenset(el.kinds), "append" if ok else f"append?{short(appends[0].value)}", appends[0].key, None, eff))
         elif not appends and not calls:
-            rows.append(NormRow(frozenset(el.kinds), "drop", "", None, l.effects))
+            rows.append(NormRow(frozenset(el.kinds), "drop", "", None, eff))
         else:
-            rows.append(NormRow(frozenset(el.kinds), "mixed", "", None, l.effects))
+            rows.append(NormRow(frozenset(el.kinds), "mixed", "", None, eff))
         rows[-1].__dict__["other_effects"] = other
         rows[-1].__dict__["iter_value"] = rec.iter_value
+        rows[-1].__dict__["arg"] = l.run.__dict__["x"]
+    if not rows:
+        raise Unmodelled("flatten: the element loop of _flatten_recurse was not reached")
     return rows
 
 
